@@ -528,9 +528,9 @@ def sendNew (k : Kcp) (buffer : Bytes) : List Seg :=
 theorem send_eq (k : Kcp) (buffer : Bytes) :
     send k buffer =
       if buffer.length = 0 then ⟨k, -1, false⟩ else
+      if sendCount k buffer > 255 then ⟨k, -2, false⟩ else
       if sendPanic1 k buffer then ⟨k, 0, true⟩ else
       if k.stream ≠ 0 ∧ (sendRest k buffer).length = 0 then ⟨{ k with snd_queue := sendQ1 k buffer }, 0, false⟩ else
-      if sendCount k buffer > 255 then ⟨{ k with snd_queue := sendQ1 k buffer }, -2, false⟩ else
       if min (sendRest k buffer).length k.mss.toNat > mtuLimit then
         ⟨{ k with snd_queue := sendQ1 k buffer }, 0, true⟩ else
       ⟨{ k with snd_queue := sendQ1 k buffer ++ sendNew k buffer }, 0, false⟩ := rfl
